@@ -115,4 +115,5 @@ def write_tree(root, files=None, dirs=None, symlinks=None):
     for rel, target in (symlinks or {}).items():
         p = os.path.join(root, rel)
         os.makedirs(os.path.dirname(p), exist_ok=True)
+        target = target.replace("{PROBE2}", os.environ.get("MSV_PROBE2", "/verif/.cache/target-hooks-ffi2/debug/libmsv_ffi_probe.so"))
         os.symlink(target.replace("{PROBE}", os.environ.get("MSV_PROBE", "/verif/.cache/target-ffi/debug/libmsv_ffi_probe.so")), p)
